@@ -215,3 +215,76 @@ Qed.
 
 Example modulo_float_zero : modulo_f (FInt 1) (FDec 0 (-1)) = LErr LiquidTypeError None.
 Proof. vm_compute. reflexivity. Qed.
+
+(** * round (known finding round-half-even-ties)
+
+    [round] of a float is Python's [round]: to the nearest integer, an exact
+    half going to the EVEN neighbour.  Liquid's reference semantics send a half
+    away from zero.  The two agree except at exact halves. *)
+
+(** Half away from zero, of m * 10^e with e < 0. *)
+Definition half_away (m e : Z) : Z :=
+  let p := 10 ^ (- e) in Z.sgn m * ((2 * Z.abs m + p) / (2 * p)).
+
+Lemma pow10_pos k : 0 <= k -> 0 < 10 ^ k.
+Proof. intro H. apply Z.pow_pos_nonneg; lia. Qed.
+
+(** The result is a nearest integer: it is within one half of the operand. *)
+Theorem round_is_nearest m e :
+  e < 0 -> let p := 10 ^ (- e) in 2 * Z.abs (m - dec_round_int m e * p) <= p.
+Proof.
+  intros He p. unfold dec_round_int. destruct (0 <=? e) eqn:E; [apply Z.leb_le in E; lia|].
+  fold p. assert (Hp : 0 < p) by (apply pow10_pos; lia).
+  pose proof (Z.div_mod m p ltac:(lia)) as D. pose proof (Z.mod_pos_bound m p Hp) as B.
+  set (q := m / p) in *. set (r := m mod p) in *.
+  destruct (2 * r <? p) eqn:L1; [apply Z.ltb_lt in L1; nia|apply Z.ltb_ge in L1].
+  destruct (p <? 2 * r) eqn:L2; [apply Z.ltb_lt in L2; nia|apply Z.ltb_ge in L2].
+  destruct (Z.even q); nia.
+Qed.
+
+(** Away from exact halves it is the half-away-from-zero rounding. *)
+Theorem round_half_away_partial m e :
+  e < 0 -> 2 * (m mod 10 ^ (- e)) <> 10 ^ (- e) -> dec_round_int m e = half_away m e.
+Proof.
+  intros He. unfold dec_round_int, half_away. destruct (0 <=? e) eqn:E; [apply Z.leb_le in E; lia|].
+  set (p := 10 ^ (- e)). assert (Hp : 0 < p) by (apply pow10_pos; lia). intro T.
+  destruct (Z.eq_dec m 0) as [Hz|Hnz].
+  { subst m. rewrite Z.div_0_l, Z.mod_0_l by lia.
+    change (2 * 0) with 0. change (Z.sgn 0) with 0. rewrite Z.mul_0_l.
+    destruct (0 <? p) eqn:L; [reflexivity|apply Z.ltb_ge in L; lia]. }
+  pose proof (Z.div_mod m p ltac:(lia)) as D. pose proof (Z.mod_pos_bound m p Hp) as B.
+  set (q := m / p) in *. set (r := m mod p) in *.
+  destruct (Z.lt_trichotomy m 0) as [Hn|[H0|Hpos]].
+  - (* negative *)
+    rewrite (Z.sgn_neg m Hn), (Z.abs_neq m) by lia.
+    destruct (2 * r <? p) eqn:L1; [apply Z.ltb_lt in L1|apply Z.ltb_ge in L1].
+    + (* result q: |m| = p(-q) - r *)
+      assert (Q : (2 * - m + p) / (2 * p) = - q).
+      { symmetry. apply (Z.div_unique_pos _ _ _ (p - 2 * r)); nia. }
+      rewrite Q. lia.
+    + destruct (p <? 2 * r) eqn:L2; [apply Z.ltb_lt in L2|apply Z.ltb_ge in L2; lia].
+      assert (Q : (2 * - m + p) / (2 * p) = - q - 1).
+      { symmetry. apply (Z.div_unique_pos _ _ _ (3 * p - 2 * r)); nia. }
+      rewrite Q. lia.
+  - contradiction.
+  - rewrite (Z.sgn_pos m Hpos), (Z.abs_eq m) by lia.
+    destruct (2 * r <? p) eqn:L1; [apply Z.ltb_lt in L1|apply Z.ltb_ge in L1].
+    + assert (Q : (2 * m + p) / (2 * p) = q).
+      { symmetry. apply (Z.div_unique_pos _ _ _ (2 * r + p)); nia. }
+      rewrite Q. lia.
+    + destruct (p <? 2 * r) eqn:L2; [apply Z.ltb_lt in L2|apply Z.ltb_ge in L2; lia].
+      assert (Q : (2 * m + p) / (2 * p) = q + 1).
+      { symmetry. apply (Z.div_unique_pos _ _ _ (2 * r - p)); nia. }
+      rewrite Q. lia.
+Qed.
+
+(** At an exact half the filter goes to the even neighbour: 2.5 | round is 2,
+    where half away from zero gives 3 (and -2.5 gives -2, 0.5 gives 0). *)
+Theorem round_half_away_refuted :
+  exists m e, e < 0 /\ round_f (FDec m e) None = Ok (FInt 2) /\ half_away m e = 3.
+Proof. exists 25, (-1). vm_compute. repeat split. Qed.
+
+Example round_ties :
+  round_f (FDec (-25) (-1)) None = Ok (FInt (-2)) /\ round_f (FDec 5 (-1)) None = Ok (FInt 0) /\
+  round_f (FDec 15 (-1)) None = Ok (FInt 2) /\ round_f (FDec 26 (-1)) None = Ok (FInt 3).
+Proof. vm_compute. repeat split. Qed.
